@@ -20,6 +20,26 @@ EXPLANATION = ("FHDL IR extracted from packet.py; FSM graphs of Packetizer/Depac
 TECHNIQUE = "AST-extracted FHDL IR + guard entailment + FSM graph + encode/decode twin comparison"
 
 
+def arbiter_requests(ctx, rid, fxa=None):
+    """packet.Arbiter: request[i] is a *combinational* copy of Status(masters[i]).ongoing (shared with C04: a registered request
+    lets the grant move away from a master that has just started to offer a beat -- the output changes under valid & ~ready)."""
+    if fxa is None:
+        fxa = fx_of(ctx, PACKET, "Arbiter")
+    reqs = [a for a in fxa.find(domain="comb") if a.t.startswith("self.rr.request[")]
+    ctx.ob(rid, PACKET, "Arbiter", "request:present", bool(reqs), "rr.request is no longer driven", 0)
+    for a in reqs:
+        idx = a.t[len("self.rr.request["):-1]
+        st = [i for i in fxa.insts if i.cls == "Status" and i.call is not None and i.call.args and
+              norm(i.call.args[0]) == f"masters[{idx}]"]
+        ok = a.v.endswith(".ongoing") and bool(st) and a.v.split(".")[0] == st[0].name
+        if not ok and a.v.endswith(".ongoing"):
+            # statuses = [Status(m) for m in masters]; request[i] <- statuses[i].ongoing
+            call = q.elem_call(fxa, a.v[:-len(".ongoing")])
+            ok = call is not None and norm(call.func) == "Status" and len(call.args) == 1 and norm(call.args[0]) == f"masters[{idx}]"
+        ctx.ob(rid, PACKET, "Arbiter", "request[i] <- Status(masters[i]).ongoing", ok,
+               "" if ok else f"request[{idx}] <= {a.v}; Status instances: {[norm(i.call.args[0]) for i in fxa.insts if i.cls == 'Status' and i.call and i.call.args]}", a.line)
+
+
 def run(ctx):
     ctx.rule("S2", "sink fields sampled into state only on valid tokens (Packetizer/Depacketizer)", min_sites=5)
     ctx.rule("S3", "count / fsm_from_idle move only on the handshake of their state", min_sites=8)
@@ -66,6 +86,23 @@ def run(ctx):
             ctx.ob("P4", PACKET, cls, f"{t.src} -> IDLE only with the last beat handed over", ok,
                    "" if ok else f"{t.src} -> IDLE under {short(B.show(G), 160)}: does not need source.valid & source.ready & source.last (e.g. "
                                  f"{B.counterexample(G, need)}): the packet is cut where no beat is transferred", t.node)
+        # an end-of-packet the element raises by itself is presented: with nothing offered on the sink (all sink lines low), whatever
+        # still makes source.last true in a state makes source.valid true as well -- otherwise the stored last beat (the flush of the
+        # realignment residue) waits for the *next* packet's first word and is pushed out by it
+        lasts = [a for a in fx.find(domain="comb", target="self.source.last") if a.state]
+        for a in lasts:
+            vs = [v for v in fx.find(domain="comb", target="self.source.valid") if v.state == a.state and q.compatible(v.pyguards, a.pyguards)]
+            if not vs:
+                continue
+            inl_ = q.Inliner(fx, a)
+            FL = B.And(inl_.gformula(a), inl_.inline(B.from_expr(a.value)))
+            FV = B.Or(*[B.And(inl_.gformula(v), inl_.inline(B.from_expr(v.value))) for v in vs])
+            idle = {t_: B.F for t_ in B.atoms(B.And(FL, FV)) if t_.startswith(("self.sink.", "sink."))}
+            FL0, FV0 = B.subst(FL, idle), B.subst(FV, idle)
+            ok = B.entails(FL0, FV0)
+            ctx.ob("P4", PACKET, cls, f"{a.state[1]}: a stored end-of-packet is offered without waiting for the sink", ok,
+                   "" if ok else f"with the sink idle source.last is {short(B.show(FL0), 80)} but source.valid is {short(B.show(FV0), 80)}: the final "
+                                 f"beat is withheld until another word arrives (and is lost with the last packet)", a.line)
         prio(ctx, "PRIO", fx, cls)
         # S3: `count` steps (value count + 1) only on a transferred word of the state
         hs = "self.source.valid & self.source.ready" if cls == "Packetizer" else "self.sink.valid & self.sink.ready"
@@ -241,19 +278,7 @@ def run(ctx):
 
     fxa = fx_of(ctx, PACKET, "Arbiter")
     fail_closed(ctx, fxa, "Arbiter")
-    reqs = [a for a in fxa.find(domain="comb") if a.t.startswith("self.rr.request[")]
-    ctx.ob("P3", PACKET, "Arbiter", "request:present", bool(reqs), "rr.request is no longer driven", 0)
-    for a in reqs:
-        idx = a.t[len("self.rr.request["):-1]
-        st = [i for i in fxa.insts if i.cls == "Status" and i.call is not None and i.call.args and
-              norm(i.call.args[0]) == f"masters[{idx}]"]
-        ok = a.v.endswith(".ongoing") and bool(st) and a.v.split(".")[0] == st[0].name
-        if not ok and a.v.endswith(".ongoing"):
-            # statuses = [Status(m) for m in masters]; request[i] <- statuses[i].ongoing
-            call = q.elem_call(fxa, a.v[:-len(".ongoing")])
-            ok = call is not None and norm(call.func) == "Status" and len(call.args) == 1 and norm(call.args[0]) == f"masters[{idx}]"
-        ctx.ob("P3", PACKET, "Arbiter", "request[i] <- Status(masters[i]).ongoing", ok,
-               "" if ok else f"request[{idx}] <= {a.v}; Status instances: {[norm(i.call.args[0]) for i in fxa.insts if i.cls == 'Status' and i.call and i.call.args]}", a.line)
+    arbiter_requests(ctx, "P3", fxa)
     n = 0
     for c in fxa.conns:
         k = c["conn"]
